@@ -55,6 +55,7 @@ type Case struct {
 	Bound     int      `json:"bound_ifindex"`
 	Oob       int      `json:"oob_ifindex"`
 	SendFails bool     `json:"every_send_fails,omitempty"` // environment fault in force
+	LogLevel  string   `json:"log_level,omitempty"`        // process-wide log level in force ("" = nothing logged)
 	History   []string `json:"datagrams_hex"`              // the last one is the failing datagram
 }
 
@@ -136,7 +137,7 @@ func chains(thorough bool) []Chain {
 }
 
 func run(r *ev.Run) {
-	r.Rule("E3 (one process per plugin chain): grammar-generated seeds - v4: message type {DISCOVER, REQUEST, 5 others, none} x hlen {0,1,5,6,8,16,17,255} x PRL {absent, empty, full} x option sets x {giaddr, ciaddr, broadcast}; v6: 16 message types x client-id {absent, LL, LLT, EN, UUID, malformed} x {IA_NA, IA_PD with 9 hint shapes, ORO, rapid commit, server-id own/other} x relay depth 0..4, 32 and the deepest nesting that fits a datagram, plus all byte strings of length 0..2 - through the real HandleMsg4/6 under every single built-in plugin, the example-config chains and full chains in 3 rotations (thorough: every ordered pair), with listener {bound, unbound} x control message {nil, interface}. For the full chains also the complete 1-deviation closure of the seeds (every truncation, every single-bit flip, every byte replaced by 00/01/7f/80/ff, every adjacent option swap); thorough adds every pair of byte substitutions in the option area of 12 seeds per chain. E1: every sequence of length <= 2 (thorough 3) over the state-relevant datagrams on fresh range / prefix instances; plus the state graphs of C02 and C08 (requests, restarts, leases running out after an hour / two days, read-only lease database) explored breadth-first within a time budget for crashes and locks left held. Environment deviation: the seeds are also run with every send failing (ENETUNREACH on the UDP socket, EPERM at the raw socket). E2: the DHCPv4 and DHCPv6 Serve loops as two threads of one controlled execution (a few datagrams each), all schedules up to 1 (thorough 2) preemptions: no panic, no deadlock. Oracle: no panic, at most one reply, no lease-plugin mutex left held, a final well-formed probe is still handled, no datagram takes longer than the watchdog. Class = chain mode/proto/outcome.")
+	r.Rule("E3 (one process per plugin chain): grammar-generated seeds - v4: message type {DISCOVER, REQUEST, 5 others, none} x hlen {0,1,5,6,8,16,17,255} x PRL {absent, empty, full} x option sets x {giaddr, ciaddr, broadcast}; v6: 16 message types x client-id {absent, LL, LLT, EN, UUID, malformed} x {IA_NA, IA_PD with 9 hint shapes, ORO, rapid commit, server-id own/other} x relay depth 0..4, 32 and the deepest nesting that fits a datagram, plus all byte strings of length 0..2 - through the real HandleMsg4/6 under every single built-in plugin, the example-config chains and full chains in 3 rotations (thorough: every ordered pair), with listener {bound, unbound} x control message {nil, interface}. For the full chains also the complete 1-deviation closure of the seeds (every truncation, every single-bit flip, every byte replaced by 00/01/7f/80/ff, every adjacent option swap); thorough adds every pair of byte substitutions in the option area of 12 seeds per chain. E1: every sequence of length <= 2 (thorough 3) over the state-relevant datagrams on fresh range / prefix instances; plus the state graphs of C02 and C08 (requests, restarts, leases running out after an hour / two days, read-only lease database) explored breadth-first within a time budget for crashes and locks left held. Environment deviation: the seeds are also run with every send failing (ENETUNREACH on the UDP socket, EPERM at the raw socket), and with the process-wide log level at debug and at trace (output discarded, everything logged is formatted). E2: the DHCPv4 and DHCPv6 Serve loops as two threads of one controlled execution (a few datagrams each), all schedules up to 1 (thorough 2) preemptions: no panic, no deadlock. Oracle: no panic, at most one reply, no lease-plugin mutex left held, a final well-formed probe is still handled, no datagram takes longer than the watchdog. Class = chain mode/proto/outcome.")
 	r.Assume("datagrams further than one deviation from a seed, chains of 3+ plugins other than the listed ones, and the real socket write are not explored; a hang is a datagram exceeding a 20 s watchdog that reproduces when re-run alone")
 	cs := chains(!r.Quick())
 	r.Set("chains", int64(len(cs)))
@@ -329,6 +330,14 @@ var peer6s = []*net.UDPAddr{{IP: net.ParseIP("fe80::99"), Port: 546}, {IP: net.P
 // handle pushes one datagram through the real entry point and applies the oracle.
 var faultOn bool
 
+// setLogLevel sets the process-wide log level for what follows (recorded in every case).
+var logLevel string
+
+func setLogLevel(l string) {
+	logLevel = l
+	srv.SetLogLevel(l)
+}
+
 // setFault switches the environment fault "every send fails" on or off.
 func setFault(on bool) {
 	faultOn = on
@@ -340,7 +349,7 @@ func setFault(on bool) {
 }
 
 func (in *instance) handle(r *ev.Run, d []byte, bound, oob int, hist []string, class string) bool {
-	c := Case{Chain: in.chain, Bound: bound, Oob: oob, SendFails: faultOn, History: append(append([]string{}, hist...), hex.EncodeToString(d))}
+	c := Case{Chain: in.chain, Bound: bound, Oob: oob, SendFails: faultOn, LogLevel: logLevel, History: append(append([]string{}, hist...), hex.EncodeToString(d))}
 	curMu.Lock()
 	curCase, curAt = &c, time.Now()
 	curMu.Unlock()
@@ -448,6 +457,7 @@ func worker(args []string) int {
 		}
 		var hist []string
 		setFault(cs.SendFails)
+		setLogLevel(cs.LogLevel)
 		for i, h := range cs.History {
 			d, _ := hex.DecodeString(h)
 			ok := in.handle(r, d, cs.Bound, cs.Oob, hist, "replay")
@@ -531,6 +541,28 @@ func worker(args []string) int {
 			}
 		}
 		setFault(false)
+	}
+	if alive {
+		// another deviation of the environment: the process-wide log level (-L debug / trace).
+		// Statements guarded by the level, and the formatting of everything that is logged,
+		// execute only now.
+		for _, lvl := range []string{"debug", "trace"} {
+			setLogLevel(lvl)
+			for _, e := range envs[:2] {
+				for _, s := range all {
+					if alive = in.handle(r, s, e[0], e[1], nil, class+"/seed-log-"+lvl); !alive {
+						break
+					}
+				}
+				if !alive {
+					break
+				}
+			}
+			if !alive {
+				break
+			}
+		}
+		setLogLevel("")
 	}
 	if alive && c.Mode == "closure" {
 		cl := seeds
